@@ -267,6 +267,15 @@ class Reader(BaseValidator):
                     assert self.on_error == "continue"
             self._location.advance_line()
 
+    def close(self):
+        if not self._is_closed and (self.accepted_rows_count is None):
+            # No row has been read because rows() never started, so the checks
+            # at the end must not see what earlier reads or writes using the
+            # same CID have left behind.
+            for check in self.cid.check_map.values():
+                check.reset()
+        super().close()
+
     def validate_rows(self):
         """
         Validate that the data read from
